@@ -117,3 +117,15 @@ claim("C07",
       "as KNOWN-FINDING and witnessed by C07_refuted_border_top_override; header-row top border is checked differentially only.",
       "Rocq proof (case analysis of the page processor + matrix update lemmas) + differential check on boundary rows",
       "DESIGN.md section 6 C07")
+claim("C05",
+      "Theorems (Coq, unbounded): the renderer's hierarchical loop renders exactly heading_plan — outer levels before "
+      "inner, every changed level rendered, every inner level re-rendered once an outer one is, nothing when nothing "
+      "changed; divider values never reach the heading values; in-page boundaries are strictly increasing and strictly "
+      "inside the page, so headings are followed by the first data row of their group. Against the implementation: per "
+      "page, the sequence of full-width heading rows / subline paragraphs and tagged data rows must put every row under "
+      "the heading of each of its levels, outer-before-inner, never stranded, no divider heading, one subline heading "
+      "naming the page's single group.",
+      "The loop invariant (carried state = key of the previous row) is validated by check_c05 and item correspondence, not "
+      "proved; domain: sorted keys with level-specific labels.",
+      "Rocq proof (induction over page_by levels and boundaries) + role-sequence differential check",
+      "DESIGN.md section 6 C05")
